@@ -269,7 +269,7 @@ class Resources:
                 max_memory_gb = (
                     Resources._convert_to_gb(max_data["memory"])
                     if max_data["memory"] is not None
-                    else 0
+                    else -1  # any memory that is set (also '0GB') beats "not set"
                 )
                 current_memory_gb = Resources._convert_to_gb(resources.memory)
                 if current_memory_gb > max_memory_gb:
